@@ -29,6 +29,7 @@ type world struct {
 	unwound   bool // the call's goroutine is unwinding (panic / Goexit) or has returned
 	closed    bool // the case is over; later sink calls (cleanup) are ignored
 	cleanup   []func()
+	stoppers  []func()                 // Stop of every BufferedWriteSyncer of the case (history "stopped first")
 	clock     *recClock                // the logger's clock
 	hookBase  int                      // custom hook calls before the current occurrence
 	errOut    *recSink                 // the logger's ErrorOutput
@@ -165,6 +166,7 @@ const (
 	histNone     = "none"
 	histOrdinary = "info+error"
 	histSibling  = "info+production-DPanic-on-sibling-logger"
+	histStopped  = "buffered-syncers-stopped+info" // the program stopped its BufferedWriteSyncers (shutdown path) and still logs
 )
 
 // clockModes: how the injected clock (zap.WithClock) moves from entry to entry.
@@ -268,6 +270,7 @@ func coreKinds() []coreKind {
 			under := w.newSink("underlying", always)
 			bws := &zapcore.BufferedWriteSyncer{WS: under, Size: size, FlushInterval: time.Hour}
 			w.cleanup = append(w.cleanup, func() { _ = bws.Stop() })
+			w.stoppers = append(w.stoppers, func() { _ = bws.Stop() })
 			return zapcore.NewCore(newEncoder(), bws, zapcore.DebugLevel), nil
 		}
 	}
@@ -287,6 +290,7 @@ func coreKinds() []coreKind {
 			under := w.newSink("underlying", always)
 			bws := &zapcore.BufferedWriteSyncer{WS: under, Size: 4096, FlushInterval: time.Hour}
 			w.cleanup = append(w.cleanup, func() { _ = bws.Stop() })
+			w.stoppers = append(w.stoppers, func() { _ = bws.Stop() })
 			short := w.newSink("short-count", always)
 			short.shortCount = true
 			return zapcore.NewCore(newEncoder(), zapcore.NewMultiWriteSyncer(bws, short), zapcore.DebugLevel), nil
@@ -585,6 +589,7 @@ func faultKinds() []coreKind {
 		return func(w *world, _ zapcore.Level, _ string) (zapcore.Core, []zap.Option) {
 			bws := &zapcore.BufferedWriteSyncer{WS: failing(w, "failing-underlying", from), Size: size, FlushInterval: time.Hour}
 			w.cleanup = append(w.cleanup, func() { _ = bws.Stop() })
+			w.stoppers = append(w.stoppers, func() { _ = bws.Stop() })
 			return zapcore.NewCore(newEncoder(), bws, zapcore.DebugLevel), nil
 		}
 	}
